@@ -5,7 +5,9 @@ from typing import Any
 
 from haiway import MISSING, Missing, State
 
-from harness.legs import cfg_text, leg_m, leg_mutant, leg_r
+import random
+
+from harness.legs import cfg_text, gen_traces, leg_m, leg_mutant, leg_r, leg_t_gen
 
 SPEC = "Heap"
 MANIFEST = dict(
@@ -16,9 +18,12 @@ MANIFEST = dict(
          "name), copies, deep-copies and compares. TLC checks Frozen and DerivedRight (action properties), PokeRejected, "
          "EqExact (== and != in both operand orders agree with 'same class and equal attributes'), EqReflexive, "
          "EqTransitive over all operation histories within the bounds; every edge is replayed on real instances and "
-         "after EVERY operation the value of EVERY live instance is projected (attribute reads + as_dict) and compared.",
+         "after EVERY operation the value of EVERY live instance is projected (attribute reads + as_dict) and compared. "
+         "Leg T: random histories of 30 operations over 10 instances (copies of updated copies, updates of deep copies, "
+         "comparisons across the whole heap) recorded from real instances are validated against Heap.tla by a generated "
+         "trace module, with the invariants evaluated at every step.",
     technique="TLA+ spec + TLC exhaustive model checking of operation histories; edge-complete graph replay into the "
-              "implementation with full heap projection after every step",
+              "implementation with full heap projection after every step; trace validation of random histories against the spec",
     design="5/C04")
 INVS = ["TypeOK", "PokeRejected", "EqExact", "EqTruth", "EqReflexive", "EqTransitive"]
 PROPS = ["Frozen", "DerivedRight"]
@@ -224,6 +229,65 @@ class HeapDriver:
         pass
 
 
+def gen_trace(rnd, nobjs=10, nops=30):
+    """a random history of up to 30 operations over up to 10 instances of every class (copies of updated copies, updates
+    of deep copies, comparisons across the whole heap), recorded from real instances with the whole heap projected after
+    every step"""
+    d = HeapDriver()
+    d.reset({})
+    tr = [dict(ev="Init", init={})]
+    heap = []  # (cls, val, ext) mirror of what was REQUESTED (the enabling conditions of the specification)
+    for _ in range(nops):
+        ch = []
+        if len(heap) < nobjs:
+            ch += [("Construct",)] * 3
+        if heap:
+            ch += [("Poke",), ("MutateInput",), ("Updated",), ("Updated",), ("Copy",), ("Compare",), ("Compare",)]
+        name = rnd.choice(ch)[0]
+        if name == "Construct":
+            c = rnd.choice(ALL)
+            v = rnd.choice([0, 1]) if c == "miss" else rnd.choice([0, 1, 2]) if c == "cont" else rnd.choice([1, 2])
+            args = [c, v]
+            heap.append([c, v, v if c in ("cont", "deep") else 0])
+        else:
+            i = rnd.randrange(len(heap)) + 1
+            c, v, ext = heap[i - 1]
+            if name == "Poke":
+                args = [i, rnd.choice(["set_existing", "set_new", "del_existing", "del_new"])]
+            elif name == "MutateInput":
+                if c not in ("cont", "deep") or ext == 0:
+                    continue
+                args = [i]
+                heap[i - 1][2] += 1
+            elif name == "Updated":
+                how = rnd.choice(["valid", "valid", "invalid", "invalid_eq", "unknown"])
+                has_eq = c in ("flat", "flat2", "gen", "deep") or (c in ("miss", "cont") and v != 0)
+                if (how == "invalid_eq" and not has_eq) or (how in ("valid", "unknown") and len(heap) >= nobjs):
+                    continue
+                args = [i, how]
+                if how in ("valid", "unknown"):
+                    nv = v if how == "unknown" else ((1 if v == 0 else 0) if c == "miss" else (2 if v == 1 else 1))
+                    heap.append([c, nv, 0])
+            elif name == "Copy":
+                if len(heap) >= nobjs:
+                    continue
+                args = [i, rnd.random() < 0.5]
+                heap.append([c, v, 0])
+            else:
+                args = [i, rnd.randrange(len(heap)) + 1]
+        o = d.apply(name, tuple(args))
+        tr.append(dict(ev=name, args=args, obs=dict(res=list(o["res"]), objs=[list(x) for x in o["objs"]])))
+    return tr
+
+
+TRACE_KW = dict(
+    variables=["heap", "nops", "obs"],
+    constants=dict(MaxObjs=10, MaxOps=100000, Bug='"none"',
+                   Classes='{"flat", "flat2", "cont", "deep", "nest", "gen", "genraw", "miss", "flag"}'),
+    config_vars=[], actions=dict(Construct=2, Poke=2, MutateInput=1, Updated=2, Copy=2, Compare=2),
+    invariants=["PokeRejected", "EqExact", "EqTruth"])
+
+
 def run(rep, work, tier, seed):
     if tier == "quick":
         mc = dict(MaxObjs=3, MaxOps=4, Classes=ALL, Bug="none")
@@ -242,6 +306,10 @@ def run(rep, work, tier, seed):
                        cfg_text(dict(small, Classes=["flat", "flat2", "cont"], Bug=bug), spec="Spec", invariants=INVS,
                                 properties=PROPS), inv + ["EqTransitive"])
     leg_r(rep, work, SPEC, f"conf_{tier}", cfg_text(conf, invariants=INVS), HeapDriver)
+    # leg T: random histories (30 operations, 10 instances) validated by a trace module generated from Heap.tla
+    rnd = random.Random(seed * 59 + 4)
+    traces = gen_traces(rep, lambda: gen_trace(rnd), 200 if tier == "quick" else 3000)
+    leg_t_gen(rep, work, SPEC, f"trace_{tier}", traces, **TRACE_KW)
     rep.assumptions += [
         "object.__setattr__ / __dict__ bypasses are outside the property; NaN excluded",
         "class family: Flat (default + required attribute), Flat2 (subclass), Cont (Sequence/Set/Mapping built from "
